@@ -274,8 +274,8 @@ class Gf180Walker(h.HierarchyWalker):
 
     def bjt_module_call(self, params: BipolarParams):
         # First check our cache
-        if params in self.diode_modcalls:
-            return self.diode_modcalls[params]
+        if params in self.bjt_modcalls:
+            return self.bjt_modcalls[params]
 
         mod = self.bjt_module(params)
 
